@@ -48,7 +48,7 @@ Q13 = [("stream", 30000), ("lifecycle", 10000), ("owning", 6000), ("mix", 10000)
 Q14 = [("liveness", 30000), ("lifecycle", 10000), ("handles", 6000), ("faults+faults", 200), ("mix", 10000)]
 Q15 = [("kinds", 30000), ("handles", 12000), ("restart", 4000), ("lifecycle", 4000), ("mix", 10000)]
 
-Q06 = [("faults+faults", 700), ("tree+faults", 500), ("svcfaults+faults", 300), ("lifecycle+faults", 300), ("timeout", 8000), ("mix+faults", 200)]
+Q06 = [("faults+faults", 700), ("tree+faults", 500), ("svcfaults+faults", 300), ("lifecycle+faults", 300), ("timeout", 8000), ("mix+faults", 200), ("broker+faults", 150)]
 Q16 = [("tree", 30000), ("tree+faults", 300), ("faults", 4000), ("mix", 10000)]
 
 Q08 = [("registry", 40000), ("liveness", 6000), ("svcfaults", 2000), ("svckeep", 6000)]
@@ -121,7 +121,7 @@ PLANS = {
                 ["C06.R1.ops_resolved", "C06.R1.later_ops_err", "C06.R1.pending_ops_err", "C06.R2.await_err", "C06.R2.join_none",
                  "C06.R2.no_activity_after_fault", "C06.R3.timers_silent_after_end", "C06.R3.timer_tasks_end", "C06.R4.children_released",
                  "C06.R5.registry_respawns", "C06.R5.try_from_registry_never_dead", "C06.R5.register_succeeds",
-                 "C06.R6.bystander_unaffected", "C06.R6.bystander_calls_ok", "C06.R6.caller_of_failed_sees_error_only"],
+                 "C06.R6.bystander_unaffected", "C06.R6.healthy_subscribers_still_served", "C06.R6.bystander_calls_ok", "C06.R6.caller_of_failed_sees_error_only"],
                 {"rule": "fault enumeration: for every base program of the families (victim with timers + child + bystander + pending client ops; actor trees; "
                          "service victims; random lifecycle programs) and its schedule seed, the fault-free run is executed first, then ONE RUN PER SINGLE FAULT: "
                          "a panic at every callback entry the fault-free run made on every victim (started / each handler / stopped / finished), an Err at every "
@@ -136,7 +136,7 @@ PLANS = {
                 mt=[('tree', 480), ('mix', 160)], mt_required=['L2:C16.R3.broadcast_exactly_once']),
     "C08": plan(Q08, scale(Q08, 40),
                 "a history in which at least two registry operations of one service type overlapped in time",
-                ["C08.R1.history_linearizable", "C08.R1.concurrent_history", "C08.R_once.default_spawns", "C08.ops.lookup", "C08.ops.register_ok",
+                ["C08.R1.history_linearizable", "C08.R2.no_registry_op_pending_at_quiescence", "C08.R1.concurrent_history", "C08.R_once.default_spawns", "C08.ops.lookup", "C08.ops.register_ok",
                  "C08.ops.register_refused", "C08.ops.replace", "C08.ops.unregister", "C08.ops.try_lookup_some", "C08.ops.try_lookup_none",
                  "C08.ops.previous_entry_identified", "C08.ops.already_running_none", "C08.ops.already_running_true", "C08.ops.already_running_false", "C08.ops.termination"],
                 {"rule": "histories of from_registry / setup / register / replace / unregister / try_from_registry / already_running / stop / self-termination "
